@@ -15,16 +15,8 @@
 package main
 
 import (
-	"bufio"
-	"bytes"
-	"crypto/sha256"
-	"encoding/json"
 	"fmt"
-	"io"
-	"log/slog"
 	"os"
-	"os/exec"
-	"path/filepath"
 	"sort"
 	"strconv"
 	"strings"
@@ -34,57 +26,6 @@ import (
 	. "verifh/lib"
 )
 
-type childOut struct {
-	Kind  string         `json:"kind"`
-	Seed  int64          `json:"seed"`
-	Req   string         `json:"req"`
-	Desc  string         `json:"desc"`
-	Viol  []WViol        `json:"viol"`
-	Kinds map[string]int `json:"kinds"`
-	N     int            `json:"n"`
-}
-
-// ---------------------------------------------------------------- child
-// child -child <par> <kind:seed> ...
-func childMain(args []string) {
-	slog.SetDefault(slog.New(slog.NewTextHandler(io.Discard, &slog.HandlerOptions{Level: slog.Level(100)})))
-	out := bufio.NewWriter(os.Stdout)
-	dn, _ := os.OpenFile(os.DevNull, os.O_WRONLY, 0)
-	os.Stdout = dn // the library prints on stdout
-	par, _ := strconv.Atoi(args[0])
-	if par < 1 {
-		par = 1
-	}
-	s := StartSrv(nil)
-	var mu sync.Mutex
-	var wg sync.WaitGroup
-	sem := make(chan struct{}, par)
-	for _, j := range args[1:] {
-		p := strings.SplitN(j, ":", 2)
-		seed, _ := strconv.ParseInt(p[1], 10, 64)
-		wg.Add(1)
-		sem <- struct{}{}
-		go func(kind string, seed int64) {
-			defer wg.Done()
-			defer func() { <-sem }()
-			sc := GenW(kind, seed)
-			h := RunW(s, sc)
-			o := childOut{Kind: kind, Seed: seed, Req: h.Request(), Desc: sc.Describe(), Viol: h.Viol, Kinds: h.Kinds, N: h.NCalls}
-			b, _ := json.Marshal(o)
-			mu.Lock()
-			out.Write(b)
-			out.WriteByte('\n')
-			out.Flush()
-			mu.Unlock()
-		}(p[0], seed)
-	}
-	wg.Wait()
-	// leave the server a moment: a crash caused by the last disconnect must still be seen
-	time.Sleep(150 * time.Millisecond)
-	out.Flush()
-}
-
-// ---------------------------------------------------------------- parent
 var (
 	childOnce sync.Once
 	childBin  string
@@ -93,115 +34,20 @@ var (
 )
 
 func child() (string, error) {
-	childOnce.Do(func() {
-		// the child is keyed by the content of THIS binary (which contains the service code of the tree under
-		// test and the harness): bin/check runs private copies of the harness from one shared directory
-		exe, err := os.Executable()
-		if err != nil {
-			exe = os.Args[0]
-		}
-		b, err := os.ReadFile(exe)
-		if err != nil {
-			childErr = err
-			return
-		}
-		sum := sha256.Sum256(b)
-		name := fmt.Sprintf("child-C13-%x", sum[:8])
-		dir := filepath.Dir(exe)
-		if abs, err := filepath.Abs(dir); err == nil {
-			dir = abs
-		}
-		if old, _ := filepath.Glob(filepath.Join(dir, "child-C13-*")); len(old) > 0 {
-			for _, o := range old {
-				if st, err := os.Stat(o); err == nil && time.Since(st.ModTime()) > 6*time.Hour && !strings.Contains(o, name) {
-					os.RemoveAll(o)
-				}
-			}
-		}
-		bin := filepath.Join(dir, name)
-		if _, err := os.Stat(bin); err == nil {
-			childBin = bin
-			return
-		}
-		tmp := fmt.Sprintf("%s.%d", name, os.Getpid())
-		bb, sites, err := BuildChild("C13", dir, tmp, false)
-		nsites = len(sites)
-		os.RemoveAll(filepath.Join(dir, "overlay-"+tmp))
-		if err != nil {
-			childErr = err
-			return
-		}
-		if err := os.Rename(bb, bin); err != nil {
-			childErr = err
-			return
-		}
-		childBin = bin
-	})
+	childOnce.Do(func() { childBin, nsites, childErr = OverlayChild("C13") })
 	return childBin, childErr
 }
 
-type delayCfg struct{ seed, us, p int }
-
-type batchRes struct {
-	outs   []childOut
-	crash  string // non-empty: the child died
-	stderr string
-}
-
-func runBatch(d delayCfg, par int, jobs []string, limit time.Duration) batchRes {
+func runBatch(d DelayCfg, par int, jobs []string, limit time.Duration) BatchRes {
 	bin, err := child()
 	if err != nil {
-		return batchRes{crash: "child build failed: " + err.Error()}
+		return BatchRes{Crash: "child build failed: " + err.Error()}
 	}
-	args := append([]string{"-child", strconv.Itoa(par)}, jobs...)
-	cmd := exec.Command(bin, args...)
-	cmd.Env = append(os.Environ(), fmt.Sprintf("VERIF_DELAY_SEED=%d", d.seed), fmt.Sprintf("VERIF_DELAY_US=%d", d.us),
-		fmt.Sprintf("VERIF_DELAY_P=%d", d.p), "GOTRACEBACK=single")
-	var so, se bytes.Buffer
-	cmd.Stdout, cmd.Stderr = &so, &se
-	done := make(chan error, 1)
-	if err := cmd.Start(); err != nil {
-		return batchRes{crash: "child did not start: " + err.Error()}
-	}
-	go func() { done <- cmd.Wait() }()
-	var werr error
-	timedOut := false
-	select {
-	case werr = <-done:
-	case <-time.After(limit):
-		cmd.Process.Kill()
-		<-done
-		timedOut = true
-	}
-	var res batchRes
-	for _, l := range strings.Split(so.String(), "\n") {
-		if strings.TrimSpace(l) == "" {
-			continue
-		}
-		var o childOut
-		if json.Unmarshal([]byte(l), &o) == nil {
-			res.outs = append(res.outs, o)
-		}
-	}
-	res.stderr = se.String()
-	st := res.stderr
-	switch {
-	case strings.Contains(st, "panic:") || strings.Contains(st, "fatal error:"):
-		i := strings.Index(st, "panic:")
-		if i < 0 {
-			i = strings.Index(st, "fatal error:")
-		}
-		res.crash = Trunc(strings.ReplaceAll(st[i:], "\n", " | "), 700)
-	case timedOut:
-		res.crash = "" // slowness alone is not a violation; the scenarios that did not report are simply missing
-	case werr != nil:
-		res.crash = "child exited: " + werr.Error() + " " + Trunc(strings.ReplaceAll(st, "\n", " | "), 400)
-	}
-	return res
+	return RunBatch(bin, &d, par, jobs, limit)
 }
 
-func batchInput(d delayCfg, par int, jobs []string) string {
-	return fmt.Sprintf("c13child %d %d %d %d %s", d.seed, d.us, d.p, par, strings.Join(jobs, ","))
+func batchInput(d DelayCfg, par int, jobs []string) string {
+	return fmt.Sprintf("c13child %d %d %d %d %s", d.Seed, d.US, d.P, par, strings.Join(jobs, ";"))
 }
 
 var oldSchedules = [][2]string{
@@ -213,7 +59,7 @@ var oldSchedules = [][2]string{
 
 func main() {
 	if len(os.Args) > 1 && os.Args[1] == "-child" {
-		childMain(os.Args[2:])
+		ChildMain(os.Args[2:])
 		return
 	}
 	RegisterOp("wexp", func(a []string) string { return "exp ok" })
@@ -226,7 +72,7 @@ func main() {
 		}
 		return "unknown historical schedule"
 	})
-	RegisterOp("c13child", func(a []string) string { // c13child <dseed> <us> <p> <par> <kind:seed,...>
+	RegisterOp("c13child", func(a []string) string { // c13child <dseed> <us> <p> <par> <job>;<job>;...
 		if len(a) < 5 {
 			return "bad-args"
 		}
@@ -234,43 +80,49 @@ func main() {
 		us, _ := strconv.Atoi(a[1])
 		p, _ := strconv.Atoi(a[2])
 		par, _ := strconv.Atoi(a[3])
-		r := runBatch(delayCfg{ds, us, p}, par, strings.Split(a[4], ","), 120*time.Second)
+		jobs := strings.Split(strings.Join(a[4:], " "), ";")
+		r := runBatch(DelayCfg{Seed: ds, US: us, P: p}, par, jobs, 120*time.Second)
 		var v []string
-		for _, o := range r.outs {
+		for _, o := range r.Outs {
 			for _, x := range o.Viol {
-				v = append(v, fmt.Sprintf("%s:%d %s: %s", o.Kind, o.Seed, x.Sig, x.Observed))
+				v = append(v, fmt.Sprintf("[%s] %s: %s", o.Line, x.Sig, x.Observed))
+			}
+			if len(jobs) == 1 {
+				v = append(v, "history: "+o.Req)
 			}
 		}
-		return fmt.Sprintf("child crash=%q scenarios-reported=%d violations=%v", r.crash, len(r.outs), v)
+		return fmt.Sprintf("child crash=%q scenarios-reported=%d/%d violations=%v", r.Crash, len(r.Outs), len(jobs), v)
 	})
 	Main("C13", c13)
 }
 
 func c13(c *Ctx) {
-	c.Rule = "fault enumeration in a child process built with the delay overlay: scenarios close-idle / close-early (before the join completes) / close-queued (3..7 commands, the terminal goes after 1-2 were written) / close-outstanding / rst-outstanding / close-afterresp / close-timer (close within +-4 ms of the timer expiry) / notmo (no timeout, released by the disconnect) / mixed, 1..7 callers, timeouts 60-250 ms, under 4 delay configurations (seeded Gosched only, sleeps up to 0.2 / 1 / 3 ms at 30 / 15 / 5 % of the instrumented sites); a case is non-trivial when at least one call was in flight when the terminal went away; distinct = distinct recorded histories"
+	c.Rule = "fault enumeration in a child process built with the delay overlay: scenarios close-idle / close-early (before the join completes) / close-queued (3..7 commands, the terminal goes after 1-2 were written) / close-outstanding / rst-outstanding / close-afterresp / close-timer (close within +-4 ms of the timer expiry) / notmo (no timeout, released by the disconnect) / mixed / burst, 1..8 callers, timeouts 60-600 ms, under 4 delay configurations (seeded Gosched only, sleeps up to 0.2 / 1 / 3 ms at 30 / 15 / 5 % of the instrumented sites); a case is non-trivial when at least one call was made and the terminal went away; distinct = distinct recorded histories"
 	for _, o := range oldSchedules {
 		c.Do(o[0], false)
 	}
 	if _, err := child(); err != nil {
 		c.Violate(Violation{Signature: "C13/child-build", What: "the server with the delay overlay does not build from the current tree",
-			Input: "c13child 1 0 30 1 close-idle:1", Observed: Trunc(err.Error(), 1500), Required: "a child binary"})
+			Input: "c13child 1 0 30 1 scn close-idle 1", Observed: Trunc(err.Error(), 1500), Required: "a child binary"})
 		return
 	}
-	c.Extra["delay_sites"] = nsites
+	if nsites > 0 {
+		c.Extra["delay_sites"] = nsites
+	}
 	kinds := []string{"close-idle", "close-early", "close-queued", "close-queued", "close-outstanding", "rst-outstanding",
 		"close-afterresp", "close-timer", "close-timer", "notmo", "mixed", "burst"}
-	cfgs := []delayCfg{{int(c.Seed), 0, 30}, {int(c.Seed) + 1, 200, 30}, {int(c.Seed) + 2, 1000, 15}, {int(c.Seed) + 3, 3000, 5}}
-	per := 3
+	cfgs := []DelayCfg{{int(c.Seed), 0, 30}, {int(c.Seed) + 1, 200, 30}, {int(c.Seed) + 2, 1000, 15}, {int(c.Seed) + 3, 3000, 5}}
+	per := 4
 	if !c.Quick() {
 		per = 40
 		for i := 0; i < 12; i++ {
-			cfgs = append(cfgs, delayCfg{int(c.Seed) + 10 + i, []int{0, 100, 500, 2000}[i%4], []int{50, 30, 10}[i%3]})
+			cfgs = append(cfgs, DelayCfg{int(c.Seed) + 10 + i, []int{0, 100, 500, 2000}[i%4], []int{50, 30, 10}[i%3]})
 		}
 	}
 	type br struct {
-		d    delayCfg
+		d    DelayCfg
 		jobs []string
-		r    batchRes
+		r    BatchRes
 	}
 	results := make([]br, len(cfgs))
 	var wg sync.WaitGroup
@@ -278,7 +130,7 @@ func c13(c *Ctx) {
 		var jobs []string
 		for _, k := range kinds {
 			for j := 0; j < per; j++ {
-				jobs = append(jobs, fmt.Sprintf("%s:%d", k, c.Rng.Int63n(90000000)))
+				jobs = append(jobs, fmt.Sprintf("scn %s %d", k, c.Rng.Int63n(90000000)))
 			}
 		}
 		results[i] = br{d: d, jobs: jobs}
@@ -293,22 +145,27 @@ func c13(c *Ctx) {
 	}
 	wg.Wait()
 	for _, b := range results {
-		c.Count(fmt.Sprintf("delay:us=%d,p=%d", b.d.us, b.d.p))
-		if b.r.crash != "" {
+		c.Count(fmt.Sprintf("delay:us=%d,p=%d", b.d.US, b.d.P))
+		if b.r.Crash != "" {
 			c.Violate(Violation{Signature: "C13/crash", What: "the server process died while terminals were disconnecting",
-				Input: batchInput(b.d, 8, b.jobs), Observed: b.r.crash, Required: "the server process keeps running"})
+				Input: batchInput(b.d, 8, b.jobs), Observed: b.r.Crash, Required: "the server process keeps running"})
 		}
-		c.Dist["scenarios-reported"] += len(b.r.outs)
+		if b.r.Slow {
+			c.Count("batch-killed-at-time-limit")
+		}
+		c.Dist["scenarios-reported"] += len(b.r.Outs)
 		c.Dist["scenarios-started"] += len(b.jobs)
-		sort.Slice(b.r.outs, func(i, j int) bool {
-			return b.r.outs[i].Kind+fmt.Sprint(b.r.outs[i].Seed) < b.r.outs[j].Kind+fmt.Sprint(b.r.outs[j].Seed)
-		})
-		for _, o := range b.r.outs {
-			c.Count("scn:" + o.Kind)
+		sort.Slice(b.r.Outs, func(i, j int) bool { return b.r.Outs[i].Job < b.r.Outs[j].Job })
+		for _, o := range b.r.Outs {
+			f := strings.Fields(o.Line)
+			if len(f) != 3 {
+				continue
+			}
+			c.Count("scn:" + f[1])
 			for k, n := range o.Kinds {
 				c.Dist["result:"+k] += n
 			}
-			input := batchInput(b.d, 1, []string{fmt.Sprintf("%s:%d", o.Kind, o.Seed)})
+			input := batchInput(b.d, 1, []string{o.Line})
 			for _, v := range o.Viol {
 				c.Violate(Violation{Signature: "C13/" + v.Sig, What: v.What, Input: input,
 					Observed: v.Observed + " | " + o.Desc + " | " + o.Req, Required: v.Required})
